@@ -70,7 +70,7 @@ def main():
         ],
         "checks": checks,
         "not_applicable": na,
-        "notes": "Genuine defects found on the pinned tree (15) were repaired by fix: commits in /repo and are listed in known_findings.json (status fixed); four sign-of-zero findings of C10 and one of C11 (integer powers across the two configurations) are listed there with status known (KNOWN-FINDING lines, exit 0); see DESIGN.md section 6. seeded/ holds 500 independently written breaking changes with which the checks were exercised (DESIGN.md section 11).",
+        "notes": "Genuine defects found on the pinned tree (15) were repaired by fix: commits in /repo and are listed in known_findings.json (status fixed); four sign-of-zero findings of C10 and one of C11 (integer powers across the two configurations) are listed there with status known (KNOWN-FINDING lines, exit 0); see DESIGN.md section 6. seeded/ holds 519 independently written breaking changes with which the checks were exercised (DESIGN.md section 11).",
     }
     json.dump(m, open("MANIFEST.json", "w"), indent=1)
     print("checks:", len(checks), "not_applicable:", len(na))
